@@ -73,7 +73,9 @@ FogRejects ==
     [entry |-> "nearest_right", arg |-> "key", kind |-> "notsequence", exc |-> "TypeError", needs |-> "any"],
     [entry |-> "nearest_right", arg |-> "key", kind |-> "badnibble", exc |-> "ValueError", needs |-> "any"],
     [entry |-> "Nibbles", arg |-> "arg", kind |-> "notsequence", exc |-> "TypeError", needs |-> "any"],
-    [entry |-> "Nibbles", arg |-> "elem", kind |-> "badnibble", exc |-> "ValueError", needs |-> "any"] }
+    [entry |-> "Nibbles", arg |-> "elem", kind |-> "badnibble", exc |-> "ValueError", needs |-> "any"],
+    [entry |-> "Nibbles", arg |-> "concatenated", kind |-> "badnibble", exc |-> "ValueError", needs |-> "any"],
+    [entry |-> "explore", arg |-> "concatenated", kind |-> "badnibble", exc |-> "ValueError", needs |-> "any"] }
 Rejected(e) == /\ Log([a |-> "reject", entry |-> e.entry, arg |-> e.arg, kind |-> e.kind, exc |-> e.exc, ok |-> FALSE])
                /\ UNCHANGED fog
 NextR == \E e \in FogRejects : Rejected(e)
